@@ -1973,7 +1973,9 @@ def _friction_tendon(is_sparse: bool, newton: bool):
         Jqvel += J * qvel_in[worldid, colind]
     else:
       nnz = int(0)
-      colind = ten_J_colind[rowadr_tenJ]
+      colind = int(-1)
+      if rownnz_tenJ > 0:  # a tendon that moves no dof has an empty row (rowadr may be past the end)
+        colind = ten_J_colind[rowadr_tenJ]
       for i in range(nv):
         if nnz < rownnz_tenJ and i == colind:
           J = ten_J_in[worldid, rowadr_tenJ + nnz]
@@ -2361,7 +2363,9 @@ def _limit_tendon(is_sparse: bool, newton: bool):
           Jqvel += J * qvel_in[worldid, colind]
       else:
         nnz = int(0)
-        colind = ten_J_colind[rowadr_tenJ]
+        colind = int(-1)
+        if rownnz_tenJ > 0:  # a tendon that moves no dof has an empty row (rowadr may be past the end)
+          colind = ten_J_colind[rowadr_tenJ]
         for i in range(nv):
           if nnz < rownnz_tenJ and i == colind:
             J = scl * ten_J_in[worldid, rowadr_tenJ + nnz]
